@@ -210,6 +210,34 @@ def csumspread_job(j):
         if rc2 != 0: bad.append(('-fy', 'not consistent after repair', [rc2, out2[-300:]]))
     return (cid, 'bad' if bad else 'ok', bad, 2)
 
+def linkmax_job(j):
+    """(j) a healthy directory whose link count sits at / next to EXT2_LINK_MAX (65000): e2fsck must leave the count, the entries and the sub-directories alone"""
+    cid, prep, mode = j
+    import lzma
+    p = fsweep.worker_path('c5j')
+    with open(p, 'wb') as f: f.write(lzma.decompress(open(os.path.join(VERIF, 'corpus', 'links65000.img.xz'), 'rb').read()))
+    for c_ in prep: run([DEBUGFS, '-w', '-R', c_, p], timeout=120)
+    def snap():
+        im = Image(open(p, 'rb').read()); r = {n: i for n, i, ft, l in im.read_dir(im.inode(2))}
+        I = im.inode(r[b'big']); ents = sorted((n, i) for n, i, ft, l in im.read_dir(I))
+        import hashlib
+        return (I.i_links_count, len(ents), hashlib.sha1(repr(ents).encode()).hexdigest()[:12], im.inode(2).i_links_count, im.inode(ents[len(ents) // 2][1]).i_links_count)
+    rc0, out0 = run([E2FSCK, '-fn', p], timeout=120)
+    if rc0 != 0:
+        # the image is a committed, validated one (plus at most one debugfs mkdir/rmdir): an e2fsck that complains about it is the violation
+        return (cid, 'bad', [('-fn', 'e2fsck -fn exits %s on a healthy filesystem' % rc0, out0[-300:])], 1)
+    before = snap()
+    rc, out = run([E2FSCK] + list(mode) + [p], timeout=300)
+    bad = []
+    if rc not in (0, 1): bad.append((' '.join(mode), 'exit status %s' % rc, out[-300:]))
+    else:
+        after = snap()
+        if after != before: bad.append((' '.join(mode), 'files changed', ['(links of /big, entries, digest of (name, inode) pairs, root links, links of a sub-directory): %s -> %s' % (before, after), out[-300:]]))
+        rc2, out2 = run([E2FSCK, '-fn', p], timeout=120)
+        if rc2 != 0: bad.append((' '.join(mode), 'not consistent after repair', [rc2, out2[-300:]]))
+    os.unlink(p)
+    return (cid, 'bad' if bad else 'ok', bad, 2)
+
 def djob(j):
     mid, base, parts = j
     p = fsweep.worker_path('c5d')
@@ -257,7 +285,7 @@ def main(tier, only=None):
     ck = Check('C05', tier, 'model_checking')
     E2FSCK = tool('e2fsck'); DEBUGFS = tool('debugfs'); MKE2FS = tool('mke2fs'); fsweep.init_scratch()
     quick = tier == 'quick'
-    parts = only or ['a', 'b', 'c', 'd', 'e', 'f', 'g', 'h', 'i']
+    parts = only or ['a', 'b', 'c', 'd', 'e', 'f', 'g', 'h', 'i', 'j']
     jobs = []
     if 'a' in parts:
         for b in fsweep.SWEEP_BASES + ['needsrec']:
@@ -316,10 +344,21 @@ def main(tier, only=None):
                             inos = [g * im_.ipg + (b0 + t) * ipb + pos + 1 for t in range(k)]
                             if min(inos) < im_.first_ino: continue
                             ijobs.append(('i/%s/g%d/blk%d+%d/pos%d' % (name, g, b0, k, pos), name, inos))
+    jjobs = []
+    if 'j' in parts and os.path.exists(os.path.join(VERIF, 'corpus', 'links65000.img.xz')):
+        for tag, prep in ((('65000', []),) if quick else (('65000', []), ('64999', ['rmdir /big/d7']), ('65001-overflow', ['mkdir /big/extra']))):
+            for m in MODES:
+                jjobs.append(('j/links%s :: %s' % (tag, ' '.join(m)), prep, m))
+    jres = pmap(linkmax_job, jjobs, chunksize=1) if jjobs else []
     ires = pmap(csumspread_job, ijobs, chunksize=4) if ijobs else []
     hres = pmap(bigext_job, hjobs, chunksize=1) if hjobs else []
     res = pmap(job, jobs, chunksize=2)
     runs = 0; skipped = 0
+    for (cid, st, bad, n), j in zip(jres, jjobs):
+        runs += n
+        if st == 'skip': skipped += 1; continue
+        for mode, what, det in (bad or []):
+            ck.violation('%s' % cid, {'case': cid, 'prep': j[1], 'mode': mode, 'what': what, 'detail': det})
     for (cid, st, bad, n), j in zip(ires, ijobs):
         runs += n
         if st == 'skip': skipped += 1; continue
@@ -358,7 +397,7 @@ def main(tier, only=None):
         ck.part('d_summary_only_damage', mutants=ndj)
     ck.add(evaluations=runs, distinct_nontrivial=len(jobs) + ndj, states=len(jobs) + ndj, transitions=runs, traces_validated_against_impl=runs,
            rule='(a) every corpus image x 5 repair modes; (b) test directory holding the first n of a fixed name sequence (hard links), every n in 0..400, 2-3 sequences (short, 252-byte, mixed lengths), '
-                'on linear/indexed/csum/inline/bigalloc bases x modes, plus names differing only in case in ordinary directories of a casefold-feature filesystem; (c) a file of every block count 0..300 x {bmap2extent, -D}; (i) on the geometry family (inode tables of 3..18 blocks, every inode in use): the checksum of one inode per inode-table block damaged in 2..8 consecutive blocks (never more than half of a block), e2fsck -fy must keep every file and leave a clean filesystem; (h) a 300 MiB filesystem whose files have written and preallocated runs of 32766..65535 blocks (extent length limits 32768 / 32767) with punched gaps x 5 repair modes, second run clean; (g) files with one attribute of every value length 0..130 and capacity-110..capacity of the external block (with and without a second attribute), i.e. every fill level of the in-inode area and of the block; (e) a file whose first n blocks are every pattern over {hole, written, unwritten(preallocated)} (quick n=4, thorough n=6; free space pre-filled with stale bytes) x modes; (f) a directory of symlinks of every target length 1..120, each with a small or a 200-byte extended attribute, on bases with 128- and 256-byte inodes x modes; (d) every single-field mutant of bitmap bits, counts, flags and checksum fields '
+                'on linear/indexed/csum/inline/bigalloc bases x modes, plus names differing only in case in ordinary directories of a casefold-feature filesystem; (c) a file of every block count 0..300 x {bmap2extent, -D}; (i) on the geometry family (inode tables of 3..18 blocks, every inode in use): the checksum of one inode per inode-table block damaged in 2..8 consecutive blocks (never more than half of a block), e2fsck -fy must keep every file and leave a clean filesystem; (j) a directory with exactly 64998 sub-directories (link count 65000, the maximum before the dir_nlink overflow rule; thorough also 64999 and the overflow case) x 5 repair modes; (h) a 300 MiB filesystem whose files have written and preallocated runs of 32766..65535 blocks (extent length limits 32768 / 32767) with punched gaps x 5 repair modes, second run clean; (g) files with one attribute of every value length 0..130 and capacity-110..capacity of the external block (with and without a second attribute), i.e. every fill level of the in-inode area and of the block; (e) a file whose first n blocks are every pattern over {hole, written, unwritten(preallocated)} (quick n=4, thorough n=6; free space pre-filled with stale bytes) x modes; (f) a directory of symlinks of every target length 1..120, each with a small or a 200-byte extended attribute, on bases with 128- and 256-byte inodes x modes; (d) every single-field mutant of bitmap bits, counts, flags and checksum fields '
                 'x e2fsck -fy.  Oracle: exit in {0,1} and xck.tree (path,type,bytes,size,mode,owner,nlink,target,xattrs) identical before/after; (d) also second run clean',
            samples=[j[1] for j in jobs[:2]] + [j[1] for j in jobs[-2:]])
     ck.assumptions += ['xck.tree is the observer of "files" (independent reader); casefold/encrypted directories not in scope']
